@@ -20,4 +20,4 @@ META = {
 
 
 def run(ctx):
-    engine.run_rules(ctx, [ras.r10_1, ras.r10_2, ras.r10_3, ras.r10_4, dt.r06_3, dt.r06_5, dt.r05_3, statecoh.r10_6])
+    engine.run_rules(ctx, [ras.r10_1, ras.r10_2, ras.r10_3, ras.r10_4, dt.r06_3, dt.r06_5, dt.r05_3, statecoh.r10_6, dt.r05_8])
